@@ -138,6 +138,7 @@ struct Peer {
 	bool notify_unanswered = false;
 	bool hdr_seen_before_wait = false;
 	bool stray_since_success = false;
+	int stalled_gen = -1; // connection on which the cache stalled inside a PDU header
 	bool may_downgrade = false;
 	bool expect_immediate_open = false;
 	uint64_t trigger_ns = 0;
